@@ -259,14 +259,18 @@ class VC:
         self.fname = fname
         self.loops = loops
         self._variant0 = {}
+        self._pre = {}        # loop ordinal -> the variables as they were when the loop was reached (`e.pre.<name>` in an invariant: frame conditions)
 
-    def _env(self, env):
-        return types.SimpleNamespace(**{k: v for k, v in env.items() if not k.startswith('__')})
+    def _env(self, env, k=None):
+        ns = types.SimpleNamespace(**{k_: v for k_, v in env.items() if not k_.startswith('__')})
+        if k is not None and k in self._pre:
+            ns.pre = self._pre[k]
+        return ns
 
-    def ev(self, inv, env):
+    def ev(self, inv, env, k=None):
         with SpecMode():
             try:
-                r = inv(self._env(env))
+                r = inv(self._env(env, k))
             except (AttributeError, NameError, KeyError) as ex:
                 raise Unsupported('sidecar invariant refers to a name the code no longer has: %s' % ex)
             return _tobool(r) if not isinstance(r, bool) else z3.BoolVal(r)
@@ -322,8 +326,10 @@ class VC:
         return wrap(rng.lo)
 
     def establish(self, k, env):
+        # the havoc that follows rebinds every modified name to a fresh object, so the objects captured here keep their loop-entry value
+        self._pre[k] = types.SimpleNamespace(**{k_: v for k_, v in env.items() if not k_.startswith('__')})
         for nm, inv in self.loops[k].get('inv', []):
-            C().oblige('%s:loop%d:establish:%s' % (self.fname, k, nm), self.ev(inv, env), 'inv')
+            C().oblige('%s:loop%d:establish:%s' % (self.fname, k, nm), self.ev(inv, env, k), 'inv')
 
     def havoc(self, k, name, env):
         c = C()
@@ -359,7 +365,7 @@ class VC:
 
     def assume_inv(self, k, env):
         for nm, inv in self.loops[k].get('inv', []):
-            C().assume(self.ev(inv, env))
+            C().assume(self.ev(inv, env, k))
 
     def assume_done(self, k, rng, t, env):
         C().assume(t.e == z3.If(rng.hi >= rng.lo, rng.hi, rng.lo))
@@ -374,7 +380,7 @@ class VC:
 
     def preserve(self, k, env):
         for nm, inv in self.loops[k].get('inv', []):
-            C().oblige('%s:loop%d:preserve:%s' % (self.fname, k, nm), self.ev(inv, env), 'inv')
+            C().oblige('%s:loop%d:preserve:%s' % (self.fname, k, nm), self.ev(inv, env, k), 'inv')
         v = self.loops[k].get('variant')
         if v is not None and k in self._variant0:
             with SpecMode():
